@@ -128,7 +128,7 @@ Proof.
 Qed.
 
 (* ------------------------------------------------------------------ peek / latest *)
-Theorem peek_spec' r : rwf r -> 0 < N (rrec r) ->
+Theorem peek_head r : rwf r -> 0 < N (rrec r) ->
   rd_peek r = ROk r (if rinit r then RNone
                      else RObs (match stored_shape r with Some s => s | None => [] end) (hd [] (rhist r))).
 Proof.
